@@ -259,6 +259,13 @@ func cmdRun(args []string) int {
 		m.Inconcl = append(m.Inconcl, "no evaluations")
 	}
 
+	// statement coverage of the library by this run's workload (cover builds only: thorough tier / VERIF_COVER=1)
+	if cd := os.Getenv("GOCOVERDIR"); cd != "" {
+		for k, v := range collectCoverage(cd, *dir, *prop) {
+			raceInfo[k] = v
+		}
+	}
+
 	wall := time.Since(start).Seconds()
 	writeEvidence(*evidence, p, *tier, *seed, m, raceInfo, wall, listed)
 
@@ -403,6 +410,100 @@ func spawn(ps pass, args []string, logPath string, limit time.Duration) (status,
 		tail = string(b)
 	}
 	return
+}
+
+// ---------------------------------------------------------------- library coverage
+
+// collectCoverage merges the coverage counters the worker processes (built with
+// -cover -coverpkg=<library packages>) wrote into GOCOVERDIR and reports, per
+// library source file, the statements this run executed; functions that were
+// never entered are listed by name. Evidence only: it decides nothing.
+func collectCoverage(covDir, scratch, prop string) map[string]any {
+	out := map[string]any{}
+	prof := filepath.Join(scratch, "cover.txt")
+	if b, err := exec.Command("go", "tool", "covdata", "textfmt", "-i="+covDir, "-o="+prof).CombinedOutput(); err != nil {
+		out["library_statement_coverage"] = "unavailable: " + strings.TrimSpace(string(b))
+		return out
+	}
+	b, err := os.ReadFile(prof)
+	if err != nil {
+		out["library_statement_coverage"] = "unavailable: " + err.Error()
+		return out
+	}
+	type fc struct{ stmts, covered int }
+	files := map[string]*fc{}
+	for _, line := range strings.Split(string(b), "\n") {
+		// file:sl.sc,el.ec numStmts count
+		i := strings.LastIndex(line, ":")
+		f := strings.Fields(line)
+		if i < 0 || len(f) != 3 || strings.HasPrefix(line, "mode:") {
+			continue
+		}
+		name := strings.TrimPrefix(line[:i], "github.com/evanphx/json-patch/")
+		if name == line[:i] || strings.Contains(name, "verifharness") || strings.Contains(name, "verif_o") {
+			continue
+		}
+		n, _ := strconv.Atoi(f[1])
+		cnt, _ := strconv.Atoi(f[2])
+		e := files[name]
+		if e == nil {
+			e = &fc{}
+			files[name] = e
+		}
+		e.stmts += n
+		if cnt > 0 {
+			e.covered += n
+		}
+	}
+	anchors := map[string]bool{}
+	if pb, err := os.ReadFile(os.Getenv("JPV_PROPERTIES")); err == nil {
+		for _, l := range strings.Split(string(pb), "\n") {
+			var pr struct {
+				ID      string `json:"id"`
+				Anchors struct {
+					Files []string `json:"files"`
+				} `json:"anchors"`
+			}
+			if json.Unmarshal([]byte(l), &pr) == nil && pr.ID == prop {
+				for _, f := range pr.Anchors.Files {
+					anchors[f] = true
+				}
+			}
+		}
+	}
+	per := map[string]any{}
+	for name, e := range files {
+		// profile names: v5/patch.go for the module, patch.go for the staged legacy package
+		pct := 0.0
+		if e.stmts > 0 {
+			pct = float64(int(1000*float64(e.covered)/float64(e.stmts))) / 10
+		}
+		ent := map[string]any{"statements": e.stmts, "executed": e.covered, "percent": pct}
+		if anchors[name] {
+			ent["anchored_by_property"] = true
+		}
+		per[name] = ent
+	}
+	out["library_statement_coverage"] = per
+	if fb, err := exec.Command("go", "tool", "covdata", "func", "-i="+covDir).Output(); err == nil {
+		var never []string
+		for _, line := range strings.Split(string(fb), "\n") {
+			f := strings.Fields(line)
+			if len(f) != 3 || f[2] != "0.0%" || !strings.HasPrefix(f[0], "github.com/evanphx/json-patch/") || strings.Contains(f[0], "verifharness") {
+				continue
+			}
+			file := strings.TrimPrefix(f[0], "github.com/evanphx/json-patch/")
+			if j := strings.Index(file, ":"); j >= 0 {
+				file = file[:j]
+			}
+			if anchors[file] {
+				never = append(never, file+":"+f[1])
+			}
+		}
+		sort.Strings(never)
+		out["anchored_functions_never_entered"] = never
+	}
+	return out
 }
 
 // ---------------------------------------------------------------- race logs
